@@ -102,26 +102,36 @@ JoinSeqs(ss, sep) == IF ss = <<>> THEN <<>>
 MaxDepth == 6       \* deeper (or cyclic) values are outside the oracle's domain
 RECURSIVE DepthOf(_, _, _)
 TooDeep(v, S) == DepthOf(v, S, 0) > MaxDepth
-RECURSIVE StrOfD(_, _, _, _)
-StrOf(v, S, repr) == StrOfD(v, S, repr, 0)
-StrOfD(v, S, repr, dep) ==
-  IF dep > MaxDepth THEN [ok |-> FALSE, c |-> <<>>] ELSE
-  CASE v.t = "int"  -> [ok |-> TRUE, c |-> IntChars(v.v)]
-    [] v.t = "flt"  -> [ok |-> TRUE, c |-> FltChars(v.n, v.d)]
-    [] v.t = "str"  -> [ok |-> TRUE, c |-> IF repr THEN <<"SQ">> \o v.c \o <<"SQ">> ELSE v.c]
-    [] v.t = "null" -> [ok |-> TRUE, c |-> <<"n", "u", "l", "l">>]
-    [] v.t = "arr"  -> LET xs == Cell(S, v.a).xs
-                           parts == [i \in 1..Len(xs) |-> StrOfD(xs[i], S, TRUE, dep + 1)] IN
-                       IF Len(xs) > 64 \/ TooDeep(v, S) THEN [ok |-> FALSE, c |-> <<>>] ELSE
-                       [ok |-> \A i \in 1..Len(xs) : parts[i].ok,
-                        c |-> <<"[">> \o JoinSeqs([i \in 1..Len(xs) |-> parts[i].c], <<",", "SP">>) \o <<"]">>]
-    [] v.t = "dict" -> LET cell == Cell(S, v.a) IN
-                       IF Len(cell.ks) = 0 THEN [ok |-> TRUE, c |-> <<"LB", "RB">>]
-                       ELSE IF Len(cell.ks) = 1
-                       THEN LET p == StrOfD(cell.vs[1], S, TRUE, dep + 1) IN
-                            [ok |-> p.ok, c |-> <<"LB", "SQ">> \o cell.ks[1] \o <<"SQ", ":", "SP">> \o p.c \o <<"RB">>]
-                       ELSE [ok |-> FALSE, c |-> <<>>]
-    [] OTHER -> [ok |-> FALSE, c |-> <<>>]
+\* SeenElision (the code's recursion guard, modelled as it is): within ONE rendering, a container that has already been
+\* rendered - an ancestor (a true cycle) or merely an earlier sibling that is the same object - is printed as [...] / {...}.
+\* `seen` is threaded left to right; every rendering (every ToStr call, every hole of a template) starts with none seen.
+RECURSIVE StrOfS(_, _, _, _, _)
+RECURSIVE StrList(_, _, _, _, _)
+StrOf(v, S, repr) == LET r == StrOfS(v, S, repr, 0, {}) IN [ok |-> r.ok, c |-> r.c]
+StrList(xs, S, dep, seen, k) ==
+  IF k > Len(xs) THEN [ok |-> TRUE, parts |-> <<>>, seen |-> seen]
+  ELSE LET h == StrOfS(xs[k], S, TRUE, dep, seen)
+           t == StrList(xs, S, dep, h.seen, k + 1) IN
+       [ok |-> h.ok /\ t.ok, parts |-> <<h.c>> \o t.parts, seen |-> t.seen]
+StrOfS(v, S, repr, dep, seen) ==
+  IF dep > MaxDepth THEN [ok |-> FALSE, c |-> <<>>, seen |-> seen] ELSE
+  CASE v.t = "int"  -> [ok |-> TRUE, c |-> IntChars(v.v), seen |-> seen]
+    [] v.t = "flt"  -> [ok |-> TRUE, c |-> FltChars(v.n, v.d), seen |-> seen]
+    [] v.t = "str"  -> [ok |-> TRUE, c |-> IF repr THEN <<"SQ">> \o v.c \o <<"SQ">> ELSE v.c, seen |-> seen]
+    [] v.t = "null" -> [ok |-> TRUE, c |-> <<"n", "u", "l", "l">>, seen |-> seen]
+    [] v.t = "arr"  -> IF v.a \in seen THEN [ok |-> TRUE, c |-> <<"[", ".", ".", ".", "]">>, seen |-> seen]
+                       ELSE LET xs == Cell(S, v.a).xs IN
+                            IF Len(xs) > 64 \/ TooDeep(v, S) THEN [ok |-> FALSE, c |-> <<>>, seen |-> seen]
+                            ELSE LET r == StrList(xs, S, dep + 1, seen \cup {v.a}, 1) IN
+                                 [ok |-> r.ok, c |-> <<"[">> \o JoinSeqs(r.parts, <<",", "SP">>) \o <<"]">>, seen |-> r.seen]
+    [] v.t = "dict" -> IF v.a \in seen THEN [ok |-> TRUE, c |-> <<"LB", ".", ".", ".", "RB">>, seen |-> seen]
+                       ELSE LET cell == Cell(S, v.a) IN
+                            IF Len(cell.ks) = 0 THEN [ok |-> TRUE, c |-> <<"LB", "RB">>, seen |-> seen \cup {v.a}]
+                            ELSE IF Len(cell.ks) = 1
+                            THEN LET p == StrOfS(cell.vs[1], S, TRUE, dep + 1, seen \cup {v.a}) IN
+                                 [ok |-> p.ok, c |-> <<"LB", "SQ">> \o cell.ks[1] \o <<"SQ", ":", "SP">> \o p.c \o <<"RB">>, seen |-> p.seen]
+                            ELSE [ok |-> FALSE, c |-> <<>>, seen |-> seen]
+    [] OTHER -> [ok |-> FALSE, c |-> <<>>, seen |-> seen]
 
 -----------------------------------------------------------------------------
 (* Truthiness and equality *)
